@@ -1,6 +1,7 @@
 //! pv-harness: runs pilota's real implementation on case lines (same text protocol as the
 //! extracted Coq model runner): one case per stdin line, one result per stdout line.
 mod asyncrd;
+mod extra;
 mod interp;
 mod val;
 
@@ -143,6 +144,9 @@ fn run_line(line: &str) -> Result<String, String> {
         "msgr" => suite_msgr(&mut t),
         "appw" => suite_appw(&mut t),
         "appr" => suite_appr(&mut t),
+        "aappr" => extra::suite_aappr(&mut t),
+        "mrt" => extra::suite_mrt(&mut t),
+        "apps" => extra::suite_apps(&mut t),
         s => Err(format!("unknown suite {s}")),
     }
 }
@@ -598,21 +602,11 @@ fn suite_appw(t: &mut Toks) -> Result<String, String> {
     })
 }
 
-/// appr <pk> <hex>  ->  ok <message hex> <kind> REM <k> | err <class>   (ApplicationException::decode)
+/// appr <pk> <hex>  ->  ok <message hex> <kind> REM <k> | err <class>   (ApplicationException::decode, also through Box / Arc)
 fn suite_appr(t: &mut Toks) -> Result<String, String> {
-    use pilota::thrift::{ApplicationException, Message};
     let pk = parse_pk(t.next()?)?;
     let input = unhex(t.next()?)?;
-    let mut b = Bytes::copy_from_slice(&input);
-    let r = match pk {
-        Pk::Binary => ApplicationException::decode(&mut TBinaryProtocol::new(&mut b, false)),
-        Pk::BinaryLe => ApplicationException::decode(&mut TBinaryLeProtocol::new(&mut b, false)),
-        Pk::Compact => ApplicationException::decode(&mut TCompactInputProtocol::new(&mut b)),
-    };
-    Ok(match r {
-        Err(e) => show_err(&e),
-        Ok(x) => format!("ok {} {} REM {}", hex(x.message().as_bytes()), x.kind().as_i32(), b.len()),
-    })
+    Ok(extra::app_decode_sync(pk, &input))
 }
 
 /// the checked binary size of the values (sum of the length passes), computed on a checked protocol
